@@ -95,6 +95,10 @@ type model struct {
 	failAfter  bool
 	sharedKind [4]bool
 	lookupImp  int
+	closed     int
+	resolved   int
+	ghosts     []*mInst          // instances whose instantiation failed after linking
+	resolve    map[string]string // ImportResolver of the instantiation being planned: module name -> instance name
 	depth      int
 	entry      *mInst // instance entered through the API by the step being evaluated
 	deepTail   int
@@ -186,7 +190,7 @@ type plan struct {
 }
 
 func (m *model) matchImport(im ImportSpec) (ex extern, spec, wz bool, why string) {
-	src, ok := m.live[im.Mod]
+	src, ok := m.source(im.Mod)
 	if !ok {
 		return ex, false, false, fmt.Sprintf("module %q is not instantiated", im.Mod)
 	}
@@ -255,6 +259,80 @@ func (m *model) evalExpr(in *mInst, e Expr) (lo, hi uint64, fn *mRef) {
 	panic("bad expr")
 }
 
+// source is the instance that satisfies imports from module name mod: the one the
+// ImportResolver of the current instantiation designates ("the first step in resolving
+// imports"), else the instance registered under that name.
+func (m *model) source(mod string) (*mInst, bool) {
+	if d, ok := m.resolve[mod]; ok {
+		if in, ok := m.live[d]; ok {
+			return in, true
+		}
+	}
+	in, ok := m.live[mod]
+	return in, ok
+}
+
+// closable reports whether closing the instance is within what wazero documents: nothing the
+// instance DEFINES (functions, memory, tables, globals) is visible to another live instance,
+// directly or as a function reference in a table or global another instance can reach. What it
+// merely imports stays alive and unchanged for the others.
+func (m *model) closable(x *mInst) bool {
+	mine := func(r *mRef) bool { return r != nil && r.f.def == x }
+	others := append([]*mInst{}, m.ghosts...) // failed instances whose functions may live on in tables
+	for _, n := range m.order {
+		others = append(others, m.live[n])
+	}
+	for _, o := range others {
+		if o == x {
+			continue
+		}
+		for _, f := range o.funcs {
+			if f.def == x {
+				return false
+			}
+		}
+		for _, t := range o.tables {
+			if indexOf(x, t) >= x.v.nIT {
+				return false // defined by x
+			}
+			for _, r := range t.fn {
+				if mine(r) {
+					return false
+				}
+			}
+		}
+		if o.mem != nil && o.mem == x.mem && !x.v.impMem {
+			return false
+		}
+		for _, g := range o.globals {
+			if i := indexOf(x, g); i >= x.v.nIG {
+				return false
+			}
+			if mine(g.fn) {
+				return false
+			}
+		}
+		for _, r := range o.ftab {
+			if mine(r) {
+				return false
+			}
+		}
+	}
+	return true
+}
+
+// close removes a closed instance.
+func (m *model) close(name string) {
+	delete(m.live, name)
+	for i, n := range m.order {
+		if n == name {
+			m.order = append(m.order[:i:i], m.order[i+1:]...)
+			break
+		}
+	}
+	m.closed++
+}
+
 // plan analyses the instantiation of spec under instance name `name` without changing the store.
 func (m *model) plan(spec *ModSpec, name string) *plan {
 	p := &plan{specCompat: true, wzCompat: true, elemOOB: -1}
@@ -274,7 +352,7 @@ func (m *model) plan(spec *ModSpec, name string) *plan {
 		}
 		switch im.Kind {
 		case kFunc:
-			if m.live[im.Mod].reexportHazard(im.Name) {
+			if src, _ := m.source(im.Mod); src.reexportHazard(im.Name) {
 				p.reexpChain = true
 				m.reexpUse++
 			}
@@ -406,6 +484,7 @@ func (m *model) run(p *plan) string {
 	m.entry = in
 	who := in.name
 	fail := func(stage string) string {
+		m.ghosts = append(m.ghosts, in)
 		m.reject()
 		return stage
 	}
